@@ -386,6 +386,13 @@ func runCase(p *Property, u *Unit, tier string, caseSeed uint64, indexed bool, w
 	} else {
 		u.Run(c)
 	}
+	// every worker reports at least one actual case
+	w.mu.Lock()
+	none := len(w.res.Samples) == 0
+	w.mu.Unlock()
+	if none && len(c.hist) > 0 {
+		c.Sample(map[string]any{"unit": u.Name, "case_seed": caseSeed, "steps": firstN(c.hist, 10)})
+	}
 }
 
 func firstFrames(st string, n int) string {
